@@ -476,6 +476,14 @@ func historiesN(e *env, filters, rnames []string, depthAll, depthBFS, nsubs int)
 				}
 			}
 			got, err := retainedOf(mt, f)
+			if !refmatch.ValidFilter(f) {
+				// a filter that is none: an error, or nothing found (the tree walk may end
+				// before it reaches the offending level)
+				if err == nil && len(got) > 0 {
+					return fmt.Sprintf("Retained(%q), which is no valid filter, returns %s", f, fmtSet(got)), "", len(hist)
+				}
+				continue
+			}
 			if err != nil {
 				return fmt.Sprintf("Retained(%q) fails: %v", f, err), "", len(hist)
 			}
